@@ -1,5 +1,6 @@
 """C12 teardown safety — the mechanisms the code relies on are applied at
 every site that needs them."""
+import simlib
 import q, engines, handlers, p11, p04
 from simlib import is_node, strip_targs, walk
 
@@ -100,7 +101,7 @@ def check(run):
             if dest != 'timer':
                 continue
             tgt = fx.by_usr(u)
-            if not tgt or not tgt[0].file.startswith('/repo/') or (tgt[0].cls or '').split('::')[-1] in ('http_server', 'http_proxy', 'socks_server', 'socks_connection'):
+            if not tgt or not tgt[0].file.startswith(simlib.REPO_PREFIX) or (tgt[0].cls or '').split('::')[-1] in ('http_server', 'http_proxy', 'socks_server', 'socks_connection'):
                 continue
             t = tgt[0]
             nb += 1
@@ -151,7 +152,7 @@ def check(run):
         if not unguarded:
             continue
         # helper: all callers guarded?
-        callers = [(cf, c) for cf, c in fx.callers.get(fn.usr, []) if cf.file.startswith('/repo/')]
+        callers = [(cf, c) for cf, c in fx.callers.get(fn.usr, []) if cf.file.startswith(simlib.REPO_PREFIX)]
         if fn.norm == T + '::incoming_packet':
             branch = 'payload-branch'
             key = (fn.norm, branch)
